@@ -102,6 +102,13 @@ func (te *tableEngine) openGame(oldTable *Table) (*Table, error) {
 	// Step 3: 更新狀態
 	cloneTable.State.Status = TableStateStatus_TableGameOpened
 
+	// the continue step refreshes the seat manager's has-chips flags without the engine lock, so a re-buy
+	// or add-on arriving at that very moment can be overwritten by the stale value: bring the flags in
+	// line with the bankrolls before positions are calculated
+	for _, player := range cloneTable.State.PlayerStates {
+		_ = te.sm.UpdatePlayerHasChips(player.PlayerID, player.Bankroll > 0)
+	}
+
 	// Step 4: 計算座位
 	if !te.sm.IsInitPositions() {
 		if err := te.sm.InitPositions(true); err != nil {
